@@ -363,7 +363,15 @@ func (eng *Engine) isUnclaimedName(name string) bool {
 			unclaimedNames[u.Obligation] = true
 		}
 	})
-	return unclaimedNames[name]
+	if unclaimedNames[name] {
+		return true
+	}
+	for pat := range unclaimedNames {
+		if strings.Contains(pat, "*") && matchName(pat, name) {
+			return true
+		}
+	}
+	return false
 }
 
 var hintsOnce sync.Once
